@@ -108,11 +108,13 @@ def run(gaf_path, gfa=None, output=None, index=None, nodes=[], regions=[], forma
         if regions:
             assert nodes == []
             nodes = get_unstable(regions, ind)
-        offsets = ind[ind_dict[nodes[0]]]
-        for nd in nodes[1:]:
-            # extracting all the lines that touches at least one of the nodes
-            offsets = list(set(offsets) | set(ind[ind_dict[nd]]))
-        offsets.sort()
+        # extracting all the lines that touches at least one of the nodes
+        # nodes without any alignment have no entry in the index and contribute nothing
+        offsets = set()
+        for nd in nodes:
+            if nd in ind_dict:
+                offsets.update(ind[ind_dict[nd]])
+        offsets = sorted(offsets)
         if len(offsets) == 0:
             raise CommandLineError("No alignments found for the given nodes/regions")
         gaf = GAF(gaf_path)
